@@ -15,6 +15,8 @@ CONSTANTS
   Vers = {0}
   FixH4 = TRUE
   SysZeroWrites = FALSE
+  SplitReads = FALSE
+  AtomicLegacyReads = TRUE
   FilterReorgInBatch = FALSE
 INIT RInit
 NEXT RNext
